@@ -32,10 +32,6 @@ def opsCore : List (String × Op) := [
   ("fillnodata_up", fun a => do
     let ds ← a.nats "ds"
     pure [("out", fillnodataUpstream ds (← a.natList "seq") (← a.ints "data") (← a.int "nodata"))]),
-  ("fillnodata_down", fun a => do
-    let ds ← a.nats "ds"
-    pure [("out", fillnodataDownstream ds (← a.natList "seq") (← a.ints "data") (← a.int "nodata")
-      (← a.nat "how"))]),
   ("main_upstream", fun a => do
     let ds ← a.nats "ds"
     pure [("usmain", ofNats (mainUpstream ds (← a.ints "uparea") (← a.int "upa_min")))]),
